@@ -5,6 +5,8 @@ id=$1; shift
 cd /verif
 if ! git -C /repo diff --quiet; then echo "repo dirty"; exit 2; fi
 git -C /repo apply /verif/seeded/$id/patch.diff || { echo "patch does not apply"; exit 2; }
+# the evidence files committed in /verif must come from the unchanged tree: keep them aside during the trial
+rm -rf /verif/.work/evidence.keep && cp -r /verif/evidence /verif/.work/evidence.keep
 for p in "$@"; do
   echo "== $id vs $p"
   ./check $p 2>&1 | grep -E "VIOLATION|KNOWN-FINDING|TOOL-ERROR" | cut -c1-220
@@ -16,4 +18,5 @@ print('violations', e.get('violations'), 'level', e['level'], 'div', e['coverage
 PY
 done
 git -C /repo checkout -- .
+rm -rf /verif/evidence && mv /verif/.work/evidence.keep /verif/evidence
 git -C /repo status --short | head -3
